@@ -23,8 +23,9 @@ TRUSTED_BASE = C01.TRUSTED_BASE + ['the reference surface grammar spec/zinc_surf
 ASSUMPTIONS = ['nesting depth of non-empty collections / nested grids at most 2 (quick) / 3 (thorough); widths, lengths and payloads unbounded',
                'time fractions of 1..6 digits (Python cannot represent more; longer fractions are not claimed)',
                'URI escapes other than \\` and \\\\ are accepted but their decoding is not judged (specification text not available offline)',
-               'document framing (bytes/charset, several grids, CRLF, missing final newline, empty input, single flag) is decided by the bounded '
-               'generator sweep only']
+               'document framing: the three regular-expression scans of parser.parse (CRLF replacement, trailing line ends, split at blank lines) are proved '
+               'exact on every reference document under ledger A-re-scan (a scan is (pattern | any character)*); the statement order of parse(), '
+               'the single flag and the bytes decoding are checked on the AST; charset decoding itself is A-bi-codec']
 EXPLANATION = ('The reference grammar of every token kind, of lists/dicts/nested grids and of whole grids (optional blanks around commas, empty cells, '
                '"_" separators, exponents, INF/-INF/NaN, all escapes, CRLF, trailing separators and blanks, upper/lower-case T and Z, optional zone '
                'names) is a regular language once nesting is unrolled; it is proved to be included in what the extracted grammar accepts - with the '
@@ -42,7 +43,7 @@ def depth_of(tier):
 
 
 def task_names(tier):
-    names = ['engine', 'accept/2.0', 'accept/3.0', 'collections', 'grid/2.0', 'grid/3.0', 'cells/2.0', 'cells/3.0', 'unescape/str', 'unescape/uri']
+    names = ['engine', 'accept/2.0', 'accept/3.0', 'collections', 'grid/2.0', 'grid/3.0', 'cells/2.0', 'cells/3.0', 'unescape/str', 'unescape/uri', 'framing']
     for ver in ('2.0', '3.0'):
         for sp, _, v3 in spellings():
             if v3 and ver == '2.0':
@@ -74,6 +75,11 @@ def reader(depth):
             nfas += [p.nfa() for p in sh.parts if isinstance(p, Field)]
         _RD[depth] = ZR.Reader(depth, extra_nfas=nfas)
     return _RD[depth]
+
+
+def t_framing(T, tier):
+    from props import framing as FR
+    FR.t_framing(T, tier)
 
 
 def t_engine(T, tier):
